@@ -27,6 +27,7 @@ META = {
     'technique': 'static analysis: abstract interpretation (doc-shape domain; concrete small-scope interpretation of commentdoc '
                  'and the wrappers), def-use taint',
 }
+META['text'] += ' Round 5: the builder scenarios include sequences one longer than every size constant of the builder with a comment on the first / a middle / the last element; comment texts with more words than every size constant of the comment builder.'
 
 TC = 'trailing_comment'
 
